@@ -526,6 +526,9 @@ func (k *Kernel) AdvanceTime(d time.Duration) {
 	}
 }
 
+// ParkedKeys lists the yield points at which goroutines are currently held.
+func (k *Kernel) ParkedKeys() []string { return k.parkedKeys() }
+
 func (k *Kernel) parkedKeys() []string {
 	k.mu.Lock()
 	defer k.mu.Unlock()
